@@ -412,3 +412,101 @@ Proof.
   - inversion H; subst. split; simpl; [intros; lia | repeat constructor].
   - destruct (del_walk _ _ _ _); inversion H; subst; (split; simpl; [intros; lia | repeat constructor]).
 Qed.
+
+(* ================================================================ the four mechanism theorems *)
+Definition store_discipline_node : node_prop := fun k args inner before after res out d =>
+  d = DStored -> before = after /\ is_err res = false /\ has_function res = false
+                 /\ (Z.of_nat (length args) <= eval_MaxArgs)%Z /\ forallb hashable args = true.
+Definition poison_node : node_prop := fun k args inner before after res out d =>
+  poison_in inner = true -> d <> DStored /\ d <> DOff /\ d <> DHit.
+Definition access_node : node_prop := fun k args inner before after res out d =>
+  access_in inner = true -> d <> DStored /\ d <> DOff /\ d <> DHit.
+
+Lemma store_discipline_eval : forall fuel on defs st fr e r st',
+  eval fuel on defs st fr e = (r, st') -> trace_all store_discipline_node (r_tr r).
+Proof.
+  intros. apply eval_good in H. destruct H as [_ H].
+  eapply trace_all_impl; [|exact H]. unfold node_ok, store_discipline_node. intros. tauto.
+Qed.
+Lemma poison_eval : forall fuel on defs st fr e r st',
+  eval fuel on defs st fr e = (r, st') -> trace_all poison_node (r_tr r).
+Proof.
+  intros. apply eval_good in H. destruct H as [_ H].
+  eapply trace_all_impl; [|exact H]. unfold node_ok, poison_node. intros k a inner b af rr o d [_ [HC _]] HP.
+  apply poison_counting in HP. destruct (HC HP); subst; repeat split; discriminate.
+Qed.
+Lemma access_eval : forall fuel on defs st fr e r st',
+  eval fuel on defs st fr e = (r, st') -> trace_all access_node (r_tr r).
+Proof.
+  intros. apply eval_good in H. destruct H as [_ H].
+  eapply trace_all_impl; [|exact H]. unfold node_ok, access_node. intros k a inner b af rr o d [_ [HC _]] HP.
+  apply access_counting in HP. destruct (HC HP); subst; repeat split; discriminate.
+Qed.
+
+(* histories *)
+Lemma run_all : forall (P : res -> Prop) on fuel defs,
+  (forall st e r st', eval fuel on defs st 0 e = (r, st') -> P r) ->
+  forall inputs st, Forall (fun p => P (fst p)) (run on fuel defs st inputs).
+Proof.
+  intros P on fuel defs HP. induction inputs as [|e rest IH]; simpl; intros st; [constructor|].
+  destruct (eval fuel on defs st 0 e) as [r st'] eqn:E. constructor; [simpl; eauto | apply IH].
+Qed.
+
+Theorem store_discipline_run : forall on fuel defs st inputs,
+  Forall (fun p => trace_all store_discipline_node (r_tr (fst p))) (run on fuel defs st inputs).
+Proof. intros. apply (run_all (fun r => trace_all store_discipline_node (r_tr r))). intros. eapply store_discipline_eval; eauto. Qed.
+Theorem poison_run : forall on fuel defs st inputs,
+  Forall (fun p => trace_all poison_node (r_tr (fst p))) (run on fuel defs st inputs).
+Proof. intros. apply (run_all (fun r => trace_all poison_node (r_tr r))). intros. eapply poison_eval; eauto. Qed.
+Theorem access_run : forall on fuel defs st inputs,
+  Forall (fun p => trace_all access_node (r_tr (fst p))) (run on fuel defs st inputs).
+Proof. intros. apply (run_all (fun r => trace_all access_node (r_tr r))). intros. eapply access_eval; eauto. Qed.
+
+(* ---- a hit replays exactly what is in the cache, and changes nothing else ---- *)
+Theorem hit_replays : forall ev defs st fr d envd fd args v o,
+  nth_error defs d = Some fd ->
+  cache_get (st_cache st) (fd_key fd) args = Some (v, o) ->
+  apply_fn ev true defs st fr (VFun d envd) args =
+    (mkRes (OVal v) false o [] [EvCall (fd_key fd) (map fst args) [] 0 0 v o DHit] 0, st).
+Proof. intros. unfold apply_fn. rewrite H, H0. reflexivity. Qed.
+
+(* Go == is the identity on hashable values *)
+Lemma fl_goeq_hashable : forall f g, fl_hashable f = true -> fl_hashable g = true -> fl_goeq f g = true ->
+  fl_num f = fl_num g /\ fl_num f <> None.
+Proof.
+  intros f g Hf Hg H. unfold fl_goeq in H. destruct (fl_num f) eqn:A, (fl_num g) eqn:B; try discriminate.
+  apply Z.eqb_eq in H. subst. split; congruence.
+Qed.
+
+Lemma value_goeq_refl : forall v, hashable v = true -> value_goeq v v = true.
+Proof.
+  fix IH 1. intros v. destruct v; simpl; intros H; try discriminate; auto.
+  - apply Z.eqb_refl.
+  - destruct f; simpl in *; try discriminate; unfold fl_goeq; simpl; auto using Z.eqb_refl.
+  - apply bytes_eqb_refl.
+  - destruct b; auto.
+  - apply andb_prop in H. destruct H as [_ H]. induction l as [|x l IHl]; auto.
+    apply andb_prop in H. destruct H as [H1 H2]. rewrite (IH x H1). simpl. auto.
+Qed.
+Lemma values_goeq_refl : forall l, forallb hashable l = true -> values_goeq l l = true.
+Proof.
+  induction l; simpl; auto. intros H. apply andb_prop in H. destruct H. rewrite value_goeq_refl; auto.
+Qed.
+
+(* what the last store for a key recorded is what a lookup with the same key returns *)
+Theorem get_after_put : forall c key args v o,
+  key_ok args = true ->
+  cache_get (cache_put c (mkCe key (map fst args) v o)) key args = Some (v, o).
+Proof.
+  intros c key args v o HK. unfold cache_get. rewrite HK.
+  assert (HM : ce_match key (map fst args) (mkCe key (map fst args) v o) = true).
+  { unfold ce_match. simpl. rewrite bytes_eqb_refl. simpl. apply values_goeq_refl.
+    unfold key_ok in HK. apply andb_prop in HK. destruct HK as [_ HK].
+    rewrite forallb_forall in *. intros x Hx. apply in_map_iff in Hx. destruct Hx as [[a b] [E Hx]]. simpl in E; subst.
+    apply HK in Hx. unfold arg_hashable in Hx. apply andb_prop in Hx. tauto. }
+  induction c as [|ce c IH]; simpl.
+  - rewrite HM. reflexivity.
+  - destruct (ce_match key (map fst args) ce) eqn:M; simpl.
+    + rewrite HM. reflexivity.
+    + rewrite M. apply IH.
+Qed.
